@@ -408,11 +408,13 @@ Definition run_c05p_w (invert implicit_temp : bool) (strats : list N) (vs : list
 End WithThr.
 
 (** the run function of the harness: [embed_threshold] is the constructor option of the reactor (None = not given).
-    Third component: per compared writing, the cap-free premises [side_okb0] (or: the pattern keeps explicit X-H bonds). *)
+    Third component: per compared writing, the cap-free premises [side_okb0] and [wfb] (simple bond lists) of the theorems
+    that hold for every configuration of the guards (or: the pattern keeps explicit X-H bonds). *)
 Definition okb0_of (invert implicit_temp : bool) (w : hostg * its * list (N * N) * list (N * N)) : bool :=
   match prepare invert implicit_temp (snd (fst (fst w))) with
   | None => false
-  | Some p => p_flag p || side_okb0 (fst (fst (fst w))) p
+  | Some p => p_flag p || (side_okb0 (fst (fst (fst w))) p
+                           && C06_Model.wfb (host_c06 (fst (fst (fst w)))) && C06_Model.wfb (pat_c06 (p_pat p)))
   end.
 Definition run_c05t (embed_threshold : option N) (invert implicit_temp explicit_stage : bool) (strats : list N)
            (ws : list (hostg * its * list (N * N) * list (N * N))) : tok :=
